@@ -31,7 +31,7 @@ structure Out (α : Type) where
   allocs : List Nat := []
   tryAllocs : List Nat := []
   res : Res α
-  deriving Repr
+  deriving Repr, DecidableEq
 
 def err {α : Type} : Out α := { res := .error }
 
@@ -50,6 +50,14 @@ def checkedMul (a b : Nat) : Option Nat :=
 /-- `Value::as_usize` / `usize::try_from(value)` of an integer value -/
 def asUsize? (x : Int) : Option Nat :=
   if 0 ≤ x ∧ x < 18446744073709551616 then some x.toNat else none
+
+/-- a `usize` result computed from non-negative parts (checks on `Nat`: comparisons of an open `Int`
+    term with a large literal send the kernel into deep recursion when it has to reduce them) -/
+def usizeN (x : Nat) : Chk Nat := if x < 18446744073709551616 then .ok x else .panic
+/-- a `u16` result -/
+def u16N (x : Nat) : Chk Nat := if x < 65536 then .ok x else .panic
+/-- `a - b` on unsigned integers -/
+def usub (a b : Nat) : Chk Nat := if b ≤ a then .ok (a - b) else .panic
 
 def isizeMax : Nat := 9223372036854775807
 /-- `size_of::<Value>()` (checked against the real type by the harness) -/
@@ -79,9 +87,17 @@ def negStepLen (lo hi s : Int) : Chk Nat :=
     let d ← i128 (-s)
     if d = 0 then .panic else pure (Chk.asUsize (c / d))
 
+/-- `lower..upper`, or `0..lower` when `upper` is omitted -/
+def rangeLo (lower : Int) : Option Int → Int
+  | some _ => lower
+  | none => 0
+def rangeHi (lower : Int) : Option Int → Int
+  | some u => u
+  | none => lower
+
 def rangeK (lower : Int) (upper step : Option Int) : Chk (Out RangeOut) :=
-  let lo := match upper with | some _ => lower | none => 0
-  let hi := match upper with | some u => u | none => lower
+  let lo := rangeLo lower upper
+  let hi := rangeHi lower upper
   match step with
   | none => pure (toResult (rangeLen lo hi) lo 1)
   | some s =>
@@ -235,7 +251,7 @@ def batchK (mem len : Nat) (count : Option Nat) (fill : Bool) : Chk (Out (List N
       let fullBatches := if len = 0 then 0 else (len - 1) / count
       if rest = 0 then pure { allocs := [rvCap, tmpCap], res := .ok [] }
       else if fill then do
-        let missing ← usize ((count : Int) - rest)                -- `count - tmp.len()`
+        let missing ← usub count rest                             -- `count - tmp.len()`
         if tryReserve mem missing then
           pure { allocs := [rvCap, tmpCap], tryAllocs := [missing],
                  res := .ok (List.replicate fullBatches count ++ [count]) }
@@ -275,10 +291,10 @@ structure Pos where
 /-- `advance` over one character: `u16::saturating_add` -/
 def advanceChar (p : Pos) (c : Char) : Chk Pos :=
   if c = '\n' then do
-    let l ← u16 ((min (p.line + 1) 65535 : Nat) : Int)
+    let l ← u16N (min (p.line + 1) 65535)
     pure ⟨l, 0⟩
   else do
-    let k ← u16 ((min (p.col + 1) 65535 : Nat) : Int)
+    let k ← u16N (min (p.col + 1) 65535)
     pure ⟨p.line, k⟩
 
 def advance (p : Pos) : List Char → Chk Pos
@@ -289,21 +305,23 @@ def advance (p : Pos) : List Char → Chk Pos
 
 /-- `syntax_error`: an empty span is widened by one column (saturating) -/
 def widen (startCol endCol : Nat) : Chk Nat :=
-  if startCol = endCol then u16 ((min (endCol + 1) 65535 : Nat) : Int) else pure endCol
+  if startCol = endCol then u16N (min (endCol + 1) 65535) else pure endCol
 
-/-- the caret line of `render_debug_info`: `" ".repeat(start_col)`, `"^".repeat(end_col ⊖ start_col)` -/
-def caretLine (startCol endCol : Nat) : Chk (Out (Nat × Nat)) := do
-  let carets ← usize ((endCol - startCol : Nat) : Int)            -- `saturating_sub`
-  pure { allocs := [startCol, carets], res := .ok (startCol, carets) }
+/-- the caret line of `render_debug_info`: `" ".repeat(start_col)`, `"^".repeat(end_col ⊖ start_col)`
+    (`saturating_sub`) -/
+def caretCount (startCol endCol : Nat) : Chk Nat := usizeN (endCol - startCol)
 
 /-- a lexer error after skipping `text`: (line, spaces, carets) as the debug output shows them -/
-def lexErrK (text : List Char) : Chk (Out (Nat × Nat × Nat)) := do
-  let p ← advance ⟨1, 0⟩ text
-  let e ← widen p.col p.col
-  let o ← caretLine p.col e
-  match o.res with
-  | .ok (sp, ca) => pure { allocs := o.allocs, res := .ok (p.line, sp, ca) }
-  | .error => pure err
+def lexErrK (text : List Char) : Chk (Out (Nat × Nat × Nat)) :=
+  match advance ⟨1, 0⟩ text with
+  | .panic => .panic
+  | .ok p =>
+    match widen p.col p.col with
+    | .panic => .panic
+    | .ok e =>
+      match caretCount p.col e with
+      | .panic => .panic
+      | .ok carets => .ok { allocs := [p.col, carets], res := .ok (p.line, p.col, carets) }
 
 /-! ## The kernels as they were before the C01 fixes (the panics that were found) -/
 namespace Legacy
@@ -324,7 +342,7 @@ def negStepLen (lo hi s : Int) : Chk Nat :=
 
 /-- `span.end_col += 1` on a `u16` -/
 def widen (startCol endCol : Nat) : Chk Nat :=
-  if startCol = endCol then u16 ((endCol + 1 : Nat) : Int) else pure endCol
+  if startCol = endCol then u16N (endCol + 1) else pure endCol
 
 /-- `" ".repeat(width)`: `Vec::with_capacity(width)` panics above `isize::MAX`, otherwise the
     allocation is as large as the template says -/
